@@ -58,5 +58,12 @@ SeqScripts ==
   { <<LoadOp(<<KOct, KOct2>>), CNewOp>> \o su \o <<CSetCbOp(sel), VerifyOpX(TK2, 0, 1), after, VerifyOpX(t, 0, 1)>> :
       su \in { <<>>, <<CSetKeyOp("HS256", 0)>> }, sel \in SelProgs,
       after \in { CSetCbOp(p) : p \in AfterProgs } \cup { CSetCbOff }, t \in {TK1, TK2} }
-MCSpec == ISpecP(InFam(C19Fam) \/ script \in RelabelScripts \/ script \in SeqScripts)
+\* the documented context-only update setcb(NULL, ctx) keeps the callback: one that refuses still refuses, one that
+\* selects the key still selects it; after setcb(NULL, NULL) a context-only update is refused and nothing runs
+CtxScripts ==
+  { <<LoadOp(<<KOct, KOct2>>), CNewOp>> \o su \o <<CSetCbOp(p)>> \o ctx \o <<VerifyOpX(t, 0, 1)>> :
+      su \in { <<>>, <<CSetKeyOp("HS256", 0)>> },
+      p \in { <<CbRet(1)>>, <<CbRet(-1)>>, <<CbKey(1), CbAlg("HS512")>>, <<CbKey(0), CbAlg("HS256")>>, <<StepDel("clm", NONE), CbRet(1)>> },
+      ctx \in { <<CSetCbCtxOp>>, <<CSetCbCtxOp, CSetCbCtxOp>>, <<CSetCbOff, CSetCbCtxOp>> }, t \in {TK1, TK2} }
+MCSpec == ISpecP(InFam(C19Fam) \/ script \in RelabelScripts \/ script \in SeqScripts \/ script \in CtxScripts)
 =============================================================================
